@@ -310,6 +310,8 @@ func (r *Recorder) declareCurrent(kind string, c interface{}) {
 	b, _ := json.Marshal(ReplayFile{Property: r.ID, Kind: kind, Case: raw, Note: "the worker process died while judging this case"})
 	r.mu.Lock()
 	defer r.mu.Unlock()
+	// through a held descriptor (two cheap system calls per case). Packages that also write this file
+	// themselves for cases they know to be risky (C11, C15) truncate it afterwards, never remove it.
 	if r.curFile == nil {
 		f, err := os.OpenFile(filepath.Join(r.outDir, fmt.Sprintf("current-%d.json", r.Shard)), os.O_RDWR|os.O_CREATE|os.O_TRUNC, 0o644)
 		if err != nil {
@@ -344,7 +346,14 @@ func NewKind[C any](r *Recorder, name string, judge func(C) []Violation) *Kind[C
 	r.kinds[name] = st
 	r.kindOrder = append(r.kindOrder, name)
 	r.mu.Unlock()
-	return &Kind[C]{r: r, st: st, judge: judge}
+	// every case is declared before it is judged (see DeclareEach) unless the kind opts out
+	return &Kind[C]{r: r, st: st, judge: judge, declare: true}
+}
+
+// NoDeclare switches the per-case declaration off (for kinds with millions of tiny cases).
+func (k *Kind[C]) NoDeclare() *Kind[C] {
+	k.declare = false
+	return k
 }
 
 // InfraClause marks a "violation" that is really the harness failing to set the case up for a
